@@ -92,7 +92,8 @@ def replay(d):
     import numpy as np
     # The check claims the module's own fallback branch of column_mapping (the one used when
     # SciPy is not installed), so the replay runs the real module with scipy.spatial absent too.
-    sys.modules['scipy.spatial'] = None
+    # (failures found in the scipy branch against the k-d tree contract are replayed with the real scipy)
+    if not d.get('kdtree'): sys.modules['scipy.spatial'] = None
     import mulgrids as mg
     fn = d.get('fn')
     sgeo, s = build(mg, d['s'])
@@ -108,6 +109,23 @@ def replay(d):
             return True, 'block_mapping (source atmosphere type %d, target %d) raised %s: %s' % (s.atm, t.atm, type(ex).__name__, ex)
         bad = mapping_problems(s, t, tgeo, m)
         return bool(bad), 'block_mapping: ' + ('; '.join(bad[:4]) if bad else 'all obligations hold concretely')
+    if fn == 'move':
+        import copy
+        try:
+            m1 = sgeo.block_mapping(tgeo)
+            bad = ['before the move: ' + b for b in mapping_problems(s, t, tgeo, m1)]
+            shift = [num(v) for v in d['shift']]
+            sgeo.translate(shift)
+            s2 = copy.copy(s)
+            fs = [F(v) for v in shift]
+            s2.cx = [v + fs[0] for v in s.cx]; s2.cy = [v + fs[1] for v in s.cy]
+            s2.lbot = [v + fs[2] for v in s.lbot]; s2.lcen = [v + fs[2] for v in s.lcen]; s2.surf = [v + fs[2] for v in s.surf]
+            m2 = sgeo.block_mapping(tgeo)
+        except Exception as ex:
+            return True, 'map / translate / map raised %s: %s' % (type(ex).__name__, ex)
+        bad += ['after translate(%r): ' % (shift,) + b for b in mapping_problems(s2, t, tgeo, m2)]
+        return bool(bad), 'block_mapping (%s branch): ' % ('scipy k-d tree' if d.get('kdtree') else 'fallback') + \
+            ('; '.join(bad[:4]) if bad else 'all obligations hold concretely before and after the move')
     if fn == 'incon':
         import t2incons as ti
         nvar = d['nvar']
@@ -146,15 +164,15 @@ def replay(d):
         conv = s.conv
         vals = {k: num(v) for k, v in d.get('values', {}).items()}
         dat = td.t2data(); dat.grid = tg.t2grid().fromgeo(sgeo)
-        gens = []
-        for gi, nm, blk, typ, ntab, enth in generator_plan(conv, d['layout'], s.colname, s.layname):
+        gens, follow = [], []
+        for gi, nm, blk, typ, ntab, enth, follows in generator_plan(conv, d['layout'], s.colname, s.layname):
             kw = dict(name=nm, block=blk, type=typ)
             if ntab:
                 kw.update(ltab=ntab, time=[vals.get('g%d_t%d' % (gi, j), float(j)) for j in range(ntab)],
                           rate=[vals.get('g%d_r%d' % (gi, j), 1.0 + j) for j in range(ntab)])
                 if enth: kw.update(itab='E', enthalpy=[vals.get('g%d_h%d' % (gi, j), 1e5) for j in range(ntab)])
             else: kw.update(gx=vals.get('g%d_gx' % gi, 1.5 + gi), ex=vals.get('g%d_ex' % gi, 1e5))
-            g = td.t2generator(**kw); dat.add_generator(g); gens.append(g)
+            g = td.t2generator(**kw); dat.add_generator(g); gens.append(g); follow.append(follows)
         snap = [(g.name, g.block, g.type, g.ltab, g.itab, g.gx, g.ex, list(g.time), list(g.rate), list(g.enthalpy)) for g in gens]
         out = td.t2data()
         try:
@@ -169,10 +187,10 @@ def replay(d):
             if isinstance(a, list): return len(a) == len(b) and all(close(x, y) for x, y in zip(a, b))
             if isinstance(a, float) and isinstance(b, float): return abs(a - b) <= 1e-9 * max(1.0, abs(a))
             return a == b
-        for sn in snap:
-            cand = [r for r in res if r[0] == sn[0] and r[1] == sn[1]]
+        for sn, fo in zip(snap, follow):
+            cand = [r for r in res if r[1] == sn[1] and (r[0] == sn[0] or not fo)]
             if len(cand) != 1: bad.append('generator %r at %r not found' % (sn[0], sn[1]))
-            elif not all(close(a, b) for a, b in zip(cand[0], sn)): bad.append('generator %r changed: %r -> %r' % (sn[0], sn, cand[0]))
+            elif not all(close(a, b) for a, b in zip(cand[0][1 if not fo else 0:], sn[1 if not fo else 0:])): bad.append('generator %r changed: %r -> %r' % (sn[0], sn, cand[0]))
         if not close(float(sum(r[5] or 0.0 for r in res if not r[3])), float(sum(r[5] or 0.0 for r in snap if not r[3]))):
             bad.append('total generation changed')
         now = [(g.name, g.block, g.type, g.ltab, g.itab, g.gx, g.ex, list(g.time), list(g.rate), list(g.enthalpy)) for g in gens]
